@@ -334,7 +334,7 @@ def evaluate_stream(ctx, res):
     aborted = res.harness_rc != 0
     if aborted:
         ctx.cov["sanitizer_aborts"] += 1
-    rep = runner.check_stream(res)
+    rep = res.report if getattr(res, "report", None) is not None else runner.check_stream(res)
     st = rep["stat"]
     nops = int(st.get("ops", 0))
     ctx.cov["evaluations"] += nops
@@ -398,6 +398,34 @@ def evaluate_twin(ctx, name, tw, cfg_a, cfg_b, what):
         path = runner.write_replay(ctx.pid, "%s-s%d" % (name, ctx.seed), ["kind=runtime " + fails[0][2].replace("\n", " | ")[:1500]], tw["a"])
         ctx.add_violation(path, "harness abort in twin run")
         return
+    if diffs and all(a == b for a, b in tw["pairs"]) and len(tw["a"]) == len(tw["b"]):
+        # index-aligned twins: shrink both op lists together (ddmin on shared index sets)
+        ia = diffs[0][0]
+        idx = list(range(ia + 1))
+        A, B = tw["a"], tw["b"]
+        t0 = time.time()
+        def still(sub):
+            t2 = dict(tw); t2["a"] = [A[i] for i in sub]; t2["b"] = [B[i] for i in sub]
+            t2["pairs"] = [(i, i) for i in range(len(sub))]
+            d2, _, _, _, _ = runner.run_twin(ctx.workdir, name + "_shr", t2, cfg_a, cfg_b)
+            return d2
+        n = 2
+        while len(idx) >= 2 and time.time() - t0 < 25:
+            chunk = max(1, len(idx) // n)
+            reduced = False
+            for i in range(0, len(idx), chunk):
+                cand = idx[:i] + idx[i + chunk:]
+                if cand and still(cand):
+                    idx = cand; n = max(n - 1, 2); reduced = True
+                    break
+                if time.time() - t0 > 25: break
+            if not reduced:
+                if chunk == 1: break
+                n = min(n * 2, len(idx))
+        d2 = still(idx)
+        if d2:
+            tw = dict(tw); tw["a"] = [A[i] for i in idx]; tw["b"] = [B[i] for i in idx]
+            diffs = d2
     if diffs:
         ia, ib, comp, va, vb = diffs[0]
         hdr = ["property=%s twin=%s seed=%d: %s" % (ctx.pid, name, ctx.seed, what),
@@ -437,6 +465,14 @@ def lean_obligations(ctx):
         if bad:
             ctx.lean_log = raw[-4000:]
             return False, "axiom audit: " + "; ".join(bad)[:400]
+        if ctx.tier == "thorough":
+            # independent re-check of the compiled .olean of the property's module
+            t1 = time.time()
+            r = subprocess.run(["lake", "env", "leanchecker", module], cwd=LEAN, stdout=subprocess.PIPE, stderr=subprocess.STDOUT, text=True)
+            ctx.cov["leanchecker"] = {"module": module, "exit": r.returncode, "s": round(time.time() - t1, 1)}
+            if r.returncode != 0:
+                ctx.lean_log = r.stdout[-4000:]
+                return False, "leanchecker rejects " + module
         ctx.discharged = len(thms)
     return True, ""
 
@@ -516,8 +552,16 @@ def run_property(pid, tier, seed):
         import extra
         extra.run_extra(ctx)
         # 6. correspondence + monitors
-        for name, cfg, ops in streams(pid, tier, seed):
+        from concurrent.futures import ThreadPoolExecutor
+        def prepare(item):
+            name, cfg, ops = item
             res = runner.run_stream(ctx.workdir, name, cfg, ops)
+            runner.check_stream(res)
+            return res
+        items = streams(pid, tier, seed)
+        with ThreadPoolExecutor(max_workers=min(8, max(1, len(items)))) as ex:
+            results = list(ex.map(prepare, items))
+        for res in results:
             evaluate_stream(ctx, res)
             if len(ctx.violations) >= 3:
                 break
